@@ -21,14 +21,17 @@ URI_POOL = ["u:1", "u:2", "http://x/3", "u:4", "http://x/3/", "u:1/"]
 ATTR_KEYS = ["id", "k", "scope", "system", "xml:lang", "{u:1}a", "{http://x/3}b", "{u:2}a"]
 
 
+CREATORS = frozenset(["new", "copy", "import_xml", "eml_seed", "json_twin"])
+
+
 class NoCand(Exception):
     pass
 
 
 def pick_steps(rng):
     r = rng.random()
-    if r < 0.01:
-        return rng.randrange(600, 1500)      # a few very long histories (accumulation, thresholds)
+    if r < 0.005:
+        return rng.randrange(600, 1000)      # a few very long histories (accumulation, thresholds)
     if r < 0.6:
         return rng.randrange(5, 40)
     if r < 0.9:
@@ -189,10 +192,13 @@ def propose(rng, cfg, weights, world, snap, V):
     kinds = list(weights)
     wts = [weights[k] for k in kinds]
     nown = len(V.cands("own", sess))
+    crowded = len(snap.cells) - snap.cells.count(None) > cfg.get("world_cap", 700)
     for _ in range(12):
         k = rng.choices(kinds, wts)[0]
         if k == "new" and nown >= cfg["universe"]:
             continue
+        if crowded and k in CREATORS:
+            continue        # the world is large enough: a step costs a snapshot of all of it
         if k != "new" and nown == 0:
             k = "new" if "new" in weights else k
         try:
